@@ -187,8 +187,8 @@ def main(argv):
         "parser_rejects": L.check_reject_rate(res, cases)}
     res.assumptions = [
         "comment = // up to end of line outside string literals; string literals have no escapes (grammar.pest)",
-        "string literals containing a double quote are not generated: expr_to_source escapes them with a backslash "
-        "the grammar does not know (F11, property C05/C07), which desynchronises any lexer-level scan of the output",
+        "string literals may contain the other quote character and `//` (since afe753e expr_to_source picks a quote "
+        "character that does not occur in the string)",
         "blots-wasm::format_blots is exercised through its line-by-line mirror in harness/src/s_c0809.rs"]
     return res.finish()
 
